@@ -375,16 +375,11 @@ fn json_string(s: &str) -> String {
 }
 
 // ---------------------------------------------------------------- operations
-fn run_on_small_stack<T: Send>(f: impl FnOnce() -> T + Send) -> T {
-    // the property's "default 2 MiB stack": every call into the crate runs on such a thread
-    std::thread::scope(|s| {
-        std::thread::Builder::new()
-            .stack_size(2 << 20)
-            .spawn_scoped(s, f)
-            .expect("spawn")
-            .join()
-            .expect("worker thread died")
-    })
+fn run_on_small_stack<T>(f: impl FnOnce() -> T) -> T {
+    // the property's "default 2 MiB stack": the whole operation loop (`main_loop`) runs on ONE worker
+    // thread of that size, so every call into the crate does too, and state the crate keeps per thread
+    // (thread_local!, statics) persists from call to call exactly as it does for a caller's own loop
+    f()
 }
 
 fn do_parse(parser: &mut NetflowParser, op: &Value) -> String {
@@ -489,6 +484,13 @@ fn do_fixed_roundtrip(op: &Value) -> String {
 
 fn main() {
     let args: Vec<String> = std::env::args().collect();
+    let r = std::thread::Builder::new().stack_size(2 << 20).spawn(move || main_loop(args)).expect("spawn").join();
+    if r.is_err() {
+        std::process::exit(3);
+    }
+}
+
+fn main_loop(args: Vec<String>) {
     if args.len() < 3 {
         eprintln!("usage: nfh <ops-file> <out-file> [start-line]");
         std::process::exit(2);
